@@ -170,25 +170,33 @@ func (s *lockSess) path(p int) string {
 	return filepath.Join(s.base, fmt.Sprintf("a%d", p%s.nd))
 }
 
-func (s *lockSess) close() {
-	for _, in := range s.insts {
+// endSession closes every instance (children stay alive for the next session: starting a
+// process costs more than a whole session) and removes the directories.
+func (s *lockSess) endSession() {
+	for id, in := range s.insts {
 		if in.db != nil {
 			_ = in.db.Close()
+		} else if c := s.procs[in.proc]; c != nil {
+			c.call(fmt.Sprintf("close %d", id))
 		}
-	}
-	for _, c := range s.procs {
-		c.kill()
 	}
 	if s.base != "" {
 		os.RemoveAll(s.base)
 	}
 	s.insts = map[int]*lockInst{}
-	s.procs = map[int]*lockChild{}
 	s.base = ""
 }
 
+func (s *lockSess) close() {
+	s.endSession()
+	for _, c := range s.procs {
+		c.kill()
+	}
+	s.procs = map[int]*lockChild{}
+}
+
 func (s *lockSess) reset(nd int) error {
-	s.close()
+	s.endSession()
 	s.nd = nd
 	s.base = scratchDir()
 	for i := 0; i < nd; i++ {
